@@ -91,11 +91,12 @@ TAG_RE = re.compile(r"//\s*\[([A-Za-z0-9_:,\- ]+)\]\s*$")
 
 
 def parse_tags(line):
-    m = TAG_RE.search(line)
-    if not m:
+    idx = line.find("//")
+    if idx < 0:
         return []
+    groups = re.findall(r"\[([A-Za-z0-9_:,\- ]+)\]", line[idx:])
     out = []
-    for t in m.group(1).split(","):
+    for t in ",".join(groups).split(","):
         t = t.strip()
         if not t:
             continue
@@ -115,6 +116,7 @@ class Item:
         self.sig, self.spec = [], []
         self.closures, self.loops, self.edits = {}, {}, []
         self.prologue = []
+        self.ghosts = []
         self.nth = 0
         self.name = None  # optional short id
 
@@ -193,6 +195,13 @@ def read_template(unit):
                                 cur = it.spec
                             elif d2 == "prologue":
                                 cur = it.prologue
+                            elif d2 == "ghost":
+                                m = re.match(r"//@\s*ghost\s+(before|after)\s+<<(.*?)>>\s*$", s2)
+                                if not m:
+                                    raise Undecided(f"{rel}:{i+1}: bad ghost directive")
+                                g = {"pos": m.group(1), "anchor": m.group(2), "lines": [], "line": i + 1}
+                                it.ghosts.append(g)
+                                cur = g["lines"]
                             elif d2 == "closure":
                                 k = int(t2[1])
                                 kv = parse_kv(t2[2:])
@@ -360,7 +369,7 @@ def assemble(unit, canary=False, mutant=None, check_fp=True):
         for ln, t in it.sig:
             A.add(t + "\n", dict(org_base, kind="sig", line=ln, tags=[]))
         spec_lines = list(it.spec)
-        if canary:
+        if canary is True or (canary and it.id in canary):
             joined = "\n".join(t for _, t in spec_lines)
             if re.search(r"\bensures\b", joined):
                 done = False
@@ -410,6 +419,16 @@ def assemble(unit, canary=False, mutant=None, check_fp=True):
         if it.prologue:
             ptxt = " ".join(strip_comment(t).strip() for _, t in it.prologue).strip()
             reps.append((b0 + 1, b0 + 1, " " + ptxt + " ", dict(org_base, kind="prologue", line=it.prologue[0][0], tags=[])))
+        for g in it.ghosts:
+            gt = " ".join(strip_comment(t).strip() for _, t in g["lines"]).strip()
+            if not re.match(r"^(proof\s*\{|assert\b|broadcast use\b)", gt):
+                raise Undecided(f"{it.tpl}:{g['line']}: ghost insertion must be a proof block / assert / broadcast use")
+            anc = g["anchor"].encode()
+            cnt = body.count(anc)
+            if cnt != 1:
+                raise Undecided(f"lost-anchor: {it.path}: ghost anchor `{g['anchor']}` occurs {cnt} times")
+            st = b0 + body.index(anc) + (len(anc) if g["pos"] == "after" else 0)
+            reps.append((st, st, " " + gt + " ", dict(org_base, kind="ghost", line=g["line"], tags=[t for _, l in g["lines"] for t in parse_tags(l)])))
         all_edits = list(it.edits)
         if mutant and mutant.get("item") == it.id:
             all_edits.append({"from": mutant["find"], "to": mutant["replace"], "why": "MUTANT", "line": 0, "mutant": True})
@@ -450,7 +469,7 @@ def assemble(unit, canary=False, mutant=None, check_fp=True):
 
 # --------------------------------------------------------------------------- verus
 
-def run_verus(path, seed=0, rlimit=None, multiple_errors=20, timeout=600):
+def run_verus(path, seed=0, rlimit=None, multiple_errors=20, timeout=900):
     cmd = ["verus", path, "--output-json", "--time-expanded", "--error-format=json",
            "--multiple-errors", str(multiple_errors)]
     if rlimit:
@@ -531,6 +550,16 @@ def analyse(A, res):
         orgs = []
         for sp in spans:
             org = A.origin_at(sp["byte_start"])
+            if org is not None and sp["byte_end"] > sp["byte_start"]:
+                # a clause may span several template lines: gather the tags of every segment it covers
+                extra = []
+                for s0, e0, o in A.offs:
+                    if s0 < sp["byte_end"] and e0 > sp["byte_start"] and o.get("item") == org.get("item") and o.get("kind") == org.get("kind"):
+                        for t in o.get("tags", []):
+                            if t not in extra:
+                                extra.append(t)
+                if extra != org.get("tags", []):
+                    org = dict(org, tags=extra, _seg=org)
             orgs.append((sp, org))
         if c in ("undecided", "tool"):
             where = ""
@@ -553,7 +582,7 @@ def analyse(A, res):
             if org["kind"] == "body":
                 ex = extract_file(org["file"])
                 # byte offset within the body segment
-                segstart = [s for s, e, o in A.offs if o is org][0]
+                segstart = [s for s, e, o in A.offs if o is org or o is org.get("_seg")][0]
                 off = org["byte"] + (sp["byte_start"] - segstart)
                 where.append({"what": "code", "file": org["file"], "line": byte_line(ex["src"], off), "label": sp.get("label"),
                               "text": (sp.get("text") or [{}])[0].get("text", "").strip()})
@@ -594,6 +623,31 @@ def trusted_scan(A):
     return out, forbidden
 
 
+def canary_rounds(A):
+    """Partition the fn items so that no item in a round mentions (calls) another item of the same round:
+    a callee with `ensures false` would make its caller verify vacuously."""
+    fns = [i for i in A.items if i["kind"] == "fn"]
+    body = {}
+    for i in fns:
+        body[i["id"]] = "".join(t for t, o in A.segs if o.get("item") == i["id"] and o["kind"] in ("body", "closure", "edit"))
+    name = {i["id"]: re.split(r"::", i["path"])[-1].replace("fn ", "").strip() for i in fns}
+    edges = {i["id"]: set() for i in fns}
+    for a in fns:
+        for b in fns:
+            if a["id"] != b["id"] and re.search(r"\b" + re.escape(name[b["id"]]) + r"\s*(::<[^>]*>)?\s*\(", body[a["id"]]):
+                edges[a["id"]].add(b["id"])
+                edges[b["id"]].add(a["id"])
+    rounds = []
+    for i in fns:
+        for rd in rounds:
+            if not (edges[i["id"]] & set(rd)):
+                rd.append(i["id"])
+                break
+        else:
+            rounds.append([i["id"]])
+    return rounds
+
+
 def verify_unit(unit, seed=0, rlimit=None, do_canary=True, mutant=None):
     t0 = time.time()
     A = assemble(unit, mutant=mutant)
@@ -606,22 +660,33 @@ def verify_unit(unit, seed=0, rlimit=None, do_canary=True, mutant=None):
     if forbidden:
         an["undecided"].append("assume/admit inside extracted code or its spliced contracts: " + "; ".join(forbidden))
     if do_canary and not mutant:
-        C = assemble(unit, canary=True)
-        cpath = write_generated(C, "__canary")
-        cres = run_verus(cpath, seed=seed, rlimit=rlimit, multiple_errors=2)
-        can = analyse(C, cres)
+        rounds = canary_rounds(A)
         failed_items = set()
-        for f in can["failures"]:
-            for i in f["items"]:
-                failed_items.add(i)
-        fn_items = [i["id"] for i in C.items if i["kind"] == "fn"]
+        cundec = []
+        cwall = 0.0
+        with ThreadPoolExecutor(max_workers=4) as ex:
+            futs = []
+            for n, rd in enumerate(rounds):
+                C = assemble(unit, canary=set(rd))
+                cpath = write_generated(C, f"__canary{n}")
+                futs.append((C, rd, ex.submit(run_verus, cpath, seed, rlimit, 2)))
+            for C, rd, fu in futs:
+                cres = fu.result()
+                cwall += cres["wall"]
+                can = analyse(C, cres)
+                for f in can["failures"]:
+                    for i in f["items"]:
+                        if i in rd:
+                            failed_items.add(i)
+                cundec += can["undecided"]
+        fn_items = [i["id"] for i in A.items if i["kind"] == "fn"]
         vac = [i for i in fn_items if i not in failed_items]
-        r["canary"] = {"path": cpath, "functions": len(fn_items), "rejected": len(fn_items) - len(vac), "vacuous": vac,
-                       "undecided": can["undecided"], "wall": cres["wall"]}
+        r["canary"] = {"functions": len(fn_items), "rejected": len(fn_items) - len(vac), "vacuous": vac,
+                       "rounds": len(rounds), "undecided": cundec, "wall": round(cwall, 2)}
         if vac:
             an["undecided"].append("vacuity canary: `ensures false` verified for " + ", ".join(vac))
         # canary tool errors (other than the expected failures) indicate a broken unit
-        for u in can["undecided"]:
+        for u in cundec:
             if not u.startswith("solver"):
                 an["undecided"].append("canary: " + u)
     r["wall"] = time.time() - t0
